@@ -46,7 +46,7 @@ def r5(ctx):
     c11.r1(ctx); c11.r3(ctx); c11.r4(ctx); c11.r5(ctx)
     c02.r6(ctx)
     tables = c10.r3(ctx)
-    c10.r1(ctx, tables); c10.r2(ctx); c10.r5(ctx); c10.r6(ctx)
+    c10.r1(ctx, tables); c10.r2(ctx); c10.r4(ctx); c10.r5(ctx); c10.r6(ctx)
     c12.r1(ctx); c12.r3(ctx); c12.r6(ctx)
     from . import c05, c09
     c09.r5(ctx, AT4_API); c09.r5(ctx, AT5_API)
